@@ -51,7 +51,15 @@ Inl(i, e) ==
     [] i = 18 -> Sn(<<"a < b > c & d \" e ' f">>, "a &lt; b &gt; c &amp; d &quot; e &#39; f", FALSE)
     [] i = 19 -> Sn(<<"![i *e*](/s \"ti\") ![r]">>, "<img src=\"/s\" title=\"ti\" alt=\"i e\"> <img src=\"/ru\" title=\"rt\" alt=\"r\">", TRUE)
     [] i = 20 -> Sn(<<"[r", "][r]">>, "<a href=\"/ru\" title=\"rt\">r" \o e \o "</a>", TRUE)
-NInl == 20
+    \* text that would start a block if its first character were not escaped, first on the paragraph's first line (directly behind a
+    \* container marker when the paragraph opens an item or a quote) and first on a continuation line
+    [] i = 21 -> Sn(<<"\\- a">>, "- a", FALSE)
+    [] i = 22 -> Sn(<<"\\> a">>, "&gt; a", FALSE)
+    [] i = 23 -> Sn(<<"\\~~~ a">>, "~~~ a", FALSE)
+    [] i = 24 -> Sn(<<"\\# a">>, "# a", FALSE)
+    [] i = 25 -> Sn(<<"a", "\\===">>, "a" \o e \o "===", FALSE)
+    [] i = 26 -> Sn(<<"a", "\\- b">>, "a" \o e \o "- b", FALSE)
+NInl == 26
 SingleLine(i) == Len(Inl(i, "\n").lines) = 1
 \* code content: lines, and their escaped html (each line followed by the EOL)
 Code(c) == CASE c = 1 -> [lines |-> <<"x">>, html |-> <<"x">>]
